@@ -61,6 +61,7 @@ double verif_real(const char *name)
     return q.get_d();
 }
 void verif_mode_real(void) {}
+double verif_rational(int64_t p, int64_t q) { return (double)p / (double)q; }
 void verif_bytes(void *buf, uint64_t n, const char *name)
 {
     for (uint64_t i = 0; i < n; i++) {
@@ -145,6 +146,21 @@ double verif_uf2(const char *name, double x, double y)
     _Exit(4);
 }
 void verif_leakcheck(int) {}
+// the random source is part of the environment: the n-th mpz_urandomm call returns the value the solver chose for it
+static int g_rand_calls = 0;
+void __gmpz_urandomm(mpz_ptr rop, gmp_randstate_t, mpz_srcptr n)
+{
+    const std::string *v = look("int", "urandomm#" + std::to_string(g_rand_calls));
+    if (!v)
+        v = look("i64", "urandomm#" + std::to_string(g_rand_calls));
+    g_rand_calls++;
+    if (v)
+        mpz_set_str(rop, v->c_str(), 10);
+    else
+        mpz_set_ui(rop, 0);
+    if (mpz_cmp(rop, n) >= 0 || mpz_sgn(rop) < 0)
+        mpz_set_ui(rop, 0);
+}
 void __verif_assert_fail(const char *file, int line, const char *cond)
 {
     printf("ASSERT-FAILED SYMENGINE_ASSERT: %s at %s:%d\n", cond, file, line);
